@@ -16,7 +16,7 @@ RecOk(r) == LET v == Verdict(r.prog) IN
 
 \* statement kinds occurring in a body, in a fixed order (root-cause key for the statement-level families)
 KindOrder == <<"var", "const", "typedecl", "define", "assign", "opassign", "incdec", "expr", "go", "defer", "send", "if", "for", "forL", "switch",
-               "switchL", "tswitch", "select", "selectL", "return", "break", "breakL", "continue", "continueL", "block", "closure", "use">>
+               "switchL", "tswitch", "select", "selectL", "return", "break", "breakL", "continue", "continueL", "block", "closure", "use", "fallthrough">>
 RECURSIVE KindsOf(_)
 KindsOf(ss) ==
   UNION {LET s == ss[j]
